@@ -2,7 +2,7 @@
 from verif import *
 from props.routers import *
 
-THEOREMS = ['c02_no_reply_lost', 'c02_origin_unforgeable', 'c02_requests_in_order_at_most_once', 'c02_replies_to_the_right_requestor_in_order', 'c02_requests_accounted', 'c02_never_superseded_while_bound']
+THEOREMS = ['c02_no_reply_lost', 'c02_origin_unforgeable', 'c02_requests_in_order_at_most_once', 'c02_replies_to_the_right_requestor_in_order', 'c02_requests_accounted', 'c02_never_superseded_while_bound', 'c02_discarded_replies_deserved_no_live_requestor']
 
 
 def run(tier, seed, replay=None):
